@@ -10,7 +10,6 @@ import inspect
 
 import numpy as np
 import networkx as nx
-from scipy.sparse import issparse
 
 from openmdao.core.configinfo import _ConfigInfo
 from openmdao.core.conn_graph import AllConnGraph
@@ -2943,19 +2942,19 @@ class Group(System):
 
         if self._owns_approx_jac and self.pathname:
             # The derivatives of this group's outputs wrt its inputs are semi-totals, for this
-            # group and for the groups above it, and a semi-total need not have the sparsity that
-            # a component declared for its partial.
+            # group and for the groups above it.  A semi-total need not have the sparsity that
+            # a component declared for its partial, and it must not share its storage either:
+            # a solver inside the group that linearizes the component during the approximation
+            # sweep would overwrite the semi-total with the partial.
             conns = self._conn_abs_in2out
             abs2meta_in = self._var_abs2meta['input']
             for of, meta in self._var_abs2meta['output'].items():
                 for wrt, inmeta in abs2meta_in.items():
                     key = (of, wrt)
                     if key in info and wrt not in conns:
-                        old = info[key]
-                        if old['rows'] is not None or old['diagonal'] or issparse(old['val']):
-                            shape = (meta['size'], inmeta['size'])
-                            info[key] = Subjac.get_instance_metadata(SUBJAC_META_DEFAULTS.copy(),
-                                                                     None, shape, self, key)
+                        shape = (meta['size'], inmeta['size'])
+                        info[key] = Subjac.get_instance_metadata(SUBJAC_META_DEFAULTS.copy(),
+                                                                 None, shape, self, key)
 
         if self._has_distrib_vars and self._owns_approx_jac:
             # We currently cannot approximate across a group with a distributed component if the
